@@ -78,6 +78,13 @@ TEMPLATES = [
     # map literals whose key is not a string: an error value in the folder and in the VM alike
     "[{A: 1}].size()", "[{A: 1}]", "{'k': {A: 1}}", "size([{'a': 1, A: 2}])", "{'k': [{A: A}]}.k.size()", "[{'a': {A: 1}}, 2].size()",
     "[{true: A}].size()", "[{[A]: 1}].map(v, 1)", "size([{1.5: A}, {A: 1.5}])",
+    # a variable read inside the body of a macro over a constant receiver, under a construct that absorbs a failed operand
+    "[1, 2].map(v, match A { case 1 : v, case _ : 0 })", "[1, 2].filter(v, match A { case 1 : true, case _ : false })",
+    "[1, 2].all(v, match A { case >= v : false, case _ : true })", "[1, 2].exists(v, match A { case == v : true, case _ : false })",
+    "[1, 2, 1].exists_one(v, match A { case == v : true, case _ : false })",
+    "[1, 2].reduce(a, v, a + match A { case int : v, case _ : 100 }, 0)", "{'a': 1}.map(k, match A { case 1 : k, case _ : 'z' })",
+    "[[1], [2]].map(v, v.map(w, match A { case 1 : w, case _ : 0 }))", "[1, 2].map(v, [match A { case 1 : v }].size())",
+    "size([1].map(v, match [A] { case list : 1, case _ : 2 }))", "[3].map(v, match A + v { case 4 : 'y', case _ : 'n' })[0]",
 ]
 
 # names the compiler's own function table does not have (has, coalesce, functions bound by the caller) in a position
